@@ -172,6 +172,27 @@ def late_comer_scenarios(base_id):
     return out
 
 
+def blocked_caller_scenarios(base_id):
+    """policy none, partition 1 has no committed offset (NoOffsetForPartitionError) while partition 0 - same
+    leader - awaits an explicit seek_to_* whose ListOffsets fails once; the application is parked in getone()"""
+    out = []
+    k = base_id
+    log = [data(3), data(3)]
+    for mode in ("group", "group_assign"):
+        for kind in ("seek_end", "seek_beg"):
+            for fault in ({"kind": "no_reply"}, {"kind": "drop_before"}, {"kind": "error", "code": 6}, {"kind": "error", "code": 7}):
+                for o in (1, 2):
+                    out.append({"id": k, "seed": k, "brokers": 1, "partitions": 2, "iso": 0, "policy": "none",
+                                "mode": mode, "logs": {"0": copy.deepcopy(log), "1": copy.deepcopy(log)},
+                                "log_start": {}, "committed": {"0": 2}, "faults": {},
+                                "api_faults": {"ListOffsets": [None] * (o - 1) + [fault]},
+                                "latency": [0.001, 0.003], "request_timeout_ms": 1000, "app": "getone_blocking",
+                                "inject": {"after_kind": "c_committed_req", "p": 0, "kind": kind, "to": 0},
+                                "consume": 1, "drain": 20.0})
+                    k += 1
+    return out
+
+
 def with_injections(base, n_events, kinds, next_id):
     out = []
     for p_str, n in n_events.items():
@@ -312,6 +333,16 @@ def monitor(ck, sc, r):
 
     group = sc["mode"] in ("group", "group_assign")
     inj = sc.get("inject")
+    # "raises NoOffsetForPartition / OffsetOutOfRange to the caller": a caller parked in getone() is woken by the
+    # buffered error - it is not left waiting for some record to arrive
+    tb = [e["t"] for e in r["trace"] if e["ev"] == "a_block_timeout"]
+    if tb:
+        begin = max([e["t"] for e in r["trace"] if e["ev"] == "a_block_begin" and e["t"] <= tb[0]] or [0])
+        errs = [e for e in r["trace"] if e["ev"] == "c_set_error" and begin <= e["t"] < tb[0] - 1.0]
+        if errs:
+            viol(f"{errs[0].get('exc', 'an error')} was buffered for partition {errs[0].get('p')} but the caller parked in "
+                 f"getone() was not woken for {tb[0] - errs[0]['t']:.1f} s", errs[0].get("p"),
+                 {"error_event": errs[0]}, sig="sim:buffered-error-does-not-wake-getone")
     if r.get("fetch_task_done"):
         viol("the background fetch routine terminated", None, sig="sim:fetch-routine-died")
     for p in range(sc["partitions"]):
@@ -619,6 +650,7 @@ def run(ck: Check):
     bases += finding_scenarios(150000)
     bases += oor_inflight_scenarios(160000)
     bases += late_comer_scenarios(170000)
+    bases += blocked_caller_scenarios(180000)
     bases += [gen_base(rng, i) for i in range(ck.n(100, 700))]
     t0 = _t.time()
     results = c03.run_scenarios(bases, timeout=ck.n(600, 2400), script="c13_sim.py")
